@@ -141,7 +141,7 @@ CheckedStep(e) ==
                    ELSE CheckedApply(e, pol, sc)
   /\ Match(wres', e)
   \* a name that comes with an error (consumers may look at it) is nothing the policy rejects
-  /\ \A i \in 1..Len(e.errwith) : ErrItemOK(e.errwith[i], pol)
+  /\ e.op = "ListRepos" => \A i \in 1..Len(e.errwith) : ErrItemOK(e.errwith[i], pol)
   \* the policy was consulted exactly as predicted (Select's allow function sees the names only)
   \* (a listing consumed k times checks its items k times)
   /\ LET want == ConsOf(cons')
@@ -182,7 +182,7 @@ SubStep(e) ==
   /\ \A i \in 1..Len(e.bscopes) : ScopesRewrittenOne(sc, ScopeOf(e.bscopes[i]))
   /\ Len(e.bscopes) = NIface(e.backend)
   /\ C13Step(e, sc)
-  /\ \A i \in 1..Len(e.errwith) : e.errwith[i] = "" \/ e.errwith[i] \in ViewRepos
+  /\ e.op = "ListRepos" => \A i \in 1..Len(e.errwith) : e.errwith[i] = "" \/ e.errwith[i] \in ViewRepos
   /\ UNCHANGED tvars
 
 \* One call of the concurrent stage: several goroutines call through ONE Sub view at the same
